@@ -1,6 +1,756 @@
-//! C09 — not built yet.
+//! C09 — sweep and second-level HTLC signatures only move funds back to the node.
+//!
+//! One group (`C09Sweep`, Lean model `sweep`, stateless): a real `Node` + Ready `Channel`
+//! (StaticRemoteKey / AnchorsZeroFeeHtlc, and deprecated Anchors under a permissive filter) with a
+//! configurable allowlist (scripts, xpubs), key-derivation style, policy filter and feerate range; the chain
+//! height seen by the channel is set per request.  Requests go through the real
+//! `sign_delayed_sweep`, `sign_counterparty_htlc_sweep`, `sign_justice_sweep`, `sign_holder_htlc_tx` and
+//! `sign_counterparty_htlc_tx`.  Sweeps have 0-4 outputs (wallet / allowlisted / xpub / foreign), several
+//! inputs, locktimes around `height + MAX_CHAIN_LAG` and in the time domain (≥ 500_000_000), sequences from
+//! and next to the permitted sets; HTLC transactions are built from a structured description (version,
+//! locktime, inputs, outputs whose script is `revokeable(revKeyId, delay, delayedKeyId)` or foreign), both
+//! redeemscript kinds in both script forms.  The model gets the structured facts; the monitors re-derive
+//! the expected transaction / destination facts independently on every ACCEPTED request and verify the
+//! returned signature.
+//!
+//! Op lines:
+//!   env <cfg> <ct s|z|a>                                  (not fed to the model)
+//!   delayed <cfg> <ct> <height> <ver> <locktime> <seqs a,b,..|-> <input> <commit_num> <nhc> <wpath> <outs d,d|->
+//!   cphtlc  <cfg> <ct> <height> <ver> <locktime> <seqs> <input> <script r<cltv>|o|x> <form 0|1> <wpath> <outs>
+//!   justice <cfg> <ct> <height> <ver> <locktime> <seqs> <input> <wpath> <outs>
+//!   htlc    <cfg> <ct> <who h|c> <ver> <locktime> <ins id:vout:seq,..|-> <outs value:script,..|-> <redeem o|r|x> <form 0|1> <amount>
+//!   cfg = minFeerate;maxFeerate;filter;style;allow-scripts(,);allow-xpubs(,)
+use super::c08::{allow_script, ext_xpub, foreign_key, key_script, parse_path, path_str, to_dp, Desc, HARD, NET};
 use crate::common::*;
+use lightning_signer::bitcoin::absolute::LockTime;
+use lightning_signer::bitcoin::hashes::Hash;
+use lightning_signer::bitcoin::secp256k1::{Message, PublicKey, Secp256k1, SecretKey};
+use lightning_signer::bitcoin::sighash::{EcdsaSighashType, SighashCache};
+use lightning_signer::bitcoin::transaction::Version;
+use lightning_signer::bitcoin::{Amount, OutPoint, ScriptBuf, Sequence, Transaction, TxIn, TxOut, Txid, Witness};
+use lightning_signer::channel::{ChannelBase, ChannelId, CommitmentType};
+use lightning_signer::lightning::ln::chan_utils::{
+    get_htlc_redeemscript, get_revokeable_redeemscript, HTLCOutputInCommitment, TxCreationKeys,
+};
+use lightning_signer::lightning::ln::channel_keys::{DelayedPaymentKey, RevocationKey};
+use lightning_signer::lightning::types::features::ChannelTypeFeatures;
+use lightning_signer::lightning::types::payment::PaymentHash;
+use lightning_signer::lightning::sign::ChannelSigner;
+use lightning_signer::monitor::ChainMonitorBase;
+use lightning_signer::node::{Allowable, Node, NodeConfig, NodeServices};
+use lightning_signer::policy::filter::{FilterResult, FilterRule, PolicyFilter};
+use lightning_signer::policy::simple_validator::{make_default_simple_policy, SimpleValidatorFactory};
+use lightning_signer::signer::derive::KeyDerivationStyle;
+use lightning_signer::util::clock::ManualClock;
+use lightning_signer::util::status::{Code, Status};
+use lightning_signer::util::test_utils::*;
+use std::sync::Arc;
+use std::time::Duration;
+
+const T_DEST: &str = "policy-sweep-destination-allowlisted";
+const T_LOCK: &str = "policy-htlc-locktime";
+const T_FEE: &str = "policy-htlc-fee-range";
+const HOLDER_DELAY: u16 = 6; // test_chan_ctx: holder_selected_contest_delay
+const CP_DELAY: u16 = 7; // counterparty_selected_contest_delay
+
+#[derive(Clone, Debug)]
+struct Cfg {
+    minf: u32,
+    maxf: u32,
+    filter: String,
+    style: char,
+    allow: Vec<String>,
+    xpubs: Vec<u32>,
+}
+impl Cfg {
+    fn parse(s: &str) -> Option<Cfg> {
+        let p: Vec<&str> = s.split(';').collect();
+        if p.len() != 6 {
+            return None;
+        }
+        let list = |x: &str| -> Vec<String> {
+            if x == "-" || x.is_empty() { vec![] } else { x.split(',').map(|s| s.to_string()).collect() }
+        };
+        Some(Cfg {
+            minf: p[0].parse().ok()?,
+            maxf: p[1].parse().ok()?,
+            filter: p[2].to_string(),
+            style: p[3].chars().next()?,
+            allow: list(p[4]),
+            xpubs: list(p[5]).iter().map(|s| s.parse().ok()).collect::<Option<Vec<u32>>>()?,
+        })
+    }
+    fn to_string(&self) -> String {
+        let l = |v: &Vec<String>| if v.is_empty() { "-".to_string() } else { v.join(",") };
+        format!("{};{};{};{};{};{}", self.minf, self.maxf, self.filter, self.style, l(&self.allow), l(&self.xpubs.iter().map(|x| x.to_string()).collect()))
+    }
+    /// d = default, p = permissive, wd / wl / wf = warn exactly on the destination / htlc-locktime / htlc-fee tag
+    fn policy_filter(&self) -> PolicyFilter {
+        let one = |t: &str| PolicyFilter { rules: vec![FilterRule { tag: t.into(), is_prefix: false, action: FilterResult::Warn }] };
+        match self.filter.as_str() {
+            "p" => PolicyFilter::new_permissive(),
+            "wd" => one(T_DEST),
+            "wl" => one(T_LOCK),
+            "wf" => one(T_FEE),
+            _ => PolicyFilter::default(),
+        }
+    }
+    fn is_err(&self, tag: &str) -> bool {
+        self.policy_filter().filter(tag) == FilterResult::Error
+    }
+}
+
+fn list(s: &str) -> Vec<&str> {
+    if s == "-" || s.is_empty() { vec![] } else { s.split(',').collect() }
+}
+fn ct_of(s: &str) -> CommitmentType {
+    match s {
+        "z" => CommitmentType::AnchorsZeroFeeHtlc,
+        "a" => CommitmentType::Anchors,
+        _ => CommitmentType::StaticRemoteKey,
+    }
+}
+fn ct_anchors(s: &str) -> bool {
+    s == "z" || s == "a"
+}
+
+// ---------------------------------------------------------------------------------------------
+// ground truth for a sweep destination under the request's wallet path
+
+/// (can_spend: t|f|e, allow: y|n|p)
+fn dest_truth(cfg: &Cfg, d: &Desc, wpath: &[u32]) -> (char, char) {
+    let cs = if wpath.is_empty() {
+        'f'
+    } else if cfg.style == 'n' && wpath.len() != 1 {
+        'e'
+    } else if matches!(d, Desc::W(p, t) if p.as_slice() == wpath && "wst".contains(*t)) {
+        't'
+    } else {
+        'f'
+    };
+    let allow = if cfg.allow.iter().any(|a| *a == d.to_string()) {
+        'y'
+    } else if wpath.is_empty() || cfg.xpubs.is_empty() {
+        'n'
+    } else if wpath.iter().any(|c| c & HARD != 0) {
+        'p'
+    } else if matches!(d, Desc::X(j, p, t) if cfg.xpubs.contains(j) && p.as_slice() == wpath && "wkt".contains(*t)) {
+        'y'
+    } else {
+        'n'
+    };
+    (cs, allow)
+}
+fn dest_ok(t: (char, char)) -> bool {
+    t.0 == 't' || (t.0 == 'f' && t.1 == 'y')
+}
+
+struct Env {
+    node_ctx: TestNodeContext,
+    chan_ctx: TestChannelContext,
+    cfg: Cfg,
+    ct: String,
+}
+
+fn make_env(cfg: &Cfg, ct: &str) -> Result<Env, String> {
+    let mut policy = make_default_simple_policy(NET);
+    policy.min_feerate_per_kw = cfg.minf;
+    policy.max_feerate_per_kw = cfg.maxf;
+    policy.filter = cfg.policy_filter();
+    let clock = Arc::new(ManualClock::new(Duration::from_secs(1_600_000_000)));
+    let services = NodeServices {
+        validator_factory: Arc::new(SimpleValidatorFactory::new_with_policy(policy)),
+        starting_time_factory: make_genesis_starting_time_factory(NET),
+        persister: Arc::new(lightning_signer::persist::DummyPersister {}),
+        clock,
+        trusted_oracle_pubkeys: vec![],
+    };
+    let config = NodeConfig {
+        network: NET,
+        key_derivation_style: if cfg.style == 'l' { KeyDerivationStyle::Ldk } else { KeyDerivationStyle::Native },
+        use_checkpoints: false,
+        allow_deep_reorgs: false,
+    };
+    let mut seed = [0u8; 32];
+    seed.copy_from_slice(&hex::decode(TEST_SEED[1]).unwrap());
+    let node0 = Node::new(config, &seed, vec![], services.clone());
+    let mut allow: Vec<Allowable> = cfg.allow.iter().filter_map(|s| allow_script(&node0, s)).map(Allowable::Script).collect();
+    for j in &cfg.xpubs {
+        allow.push(Allowable::XPub(ext_xpub(*j)));
+    }
+    let node = Arc::new(Node::new(config, &seed, allow, services));
+    let node_ctx = TestNodeContext { node, secp_ctx: Secp256k1::signing_only() };
+    let mut chan_ctx = test_chan_ctx_with_push_val(&node_ctx, 1, 3_000_000, 0);
+    chan_ctx.setup.commitment_type = ct_of(ct);
+    let ftx = Transaction {
+        version: Version::TWO,
+        lock_time: LockTime::ZERO,
+        input: vec![],
+        output: vec![TxOut { value: Amount::from_sat(3_000_000), script_pubkey: ScriptBuf::new() }],
+    };
+    if let Some(st) = funding_tx_setup_channel(&node_ctx, &mut chan_ctx, &ftx, 0) {
+        return Err(format!("setup_channel: {}", st.message()));
+    }
+    Ok(Env { node_ctx, chan_ctx, cfg: cfg.clone(), ct: ct.to_string() })
+}
+
+fn status_class(st: &Status) -> String {
+    match st.code() {
+        Code::InvalidArgument => "err:invalid".into(),
+        Code::FailedPrecondition => {
+            if st.message().starts_with("transaction format") {
+                "err:format".into()
+            } else if st.message().starts_with("policy failure") {
+                "err:policy".into()
+            } else {
+                format!("err:precondition-other {}", st.message())
+            }
+        }
+        c => format!("err:other {:?} {}", c, st.message()),
+    }
+}
+
+fn txid_of(id: u32) -> Txid {
+    let mut h = [0x44u8; 32];
+    h[..4].copy_from_slice(&id.to_be_bytes());
+    Txid::from_slice(&h).unwrap()
+}
+
+fn desc_script(node: &Node, d: &Desc) -> ScriptBuf {
+    allow_script(node, &d.to_string()).unwrap_or_else(ScriptBuf::new)
+}
+
+fn features(form_anchors: bool) -> ChannelTypeFeatures {
+    let mut f = ChannelTypeFeatures::empty();
+    f.set_static_remote_key_required();
+    if form_anchors {
+        f.set_anchors_zero_fee_htlc_tx_optional();
+    }
+    f
+}
+
+fn garbage_script() -> ScriptBuf {
+    ScriptBuf::from_bytes(vec![0x76, 0xa9, 0x14, 1, 2, 3, 4, 5, 6, 7, 8, 9, 10, 11, 12, 13, 14, 15, 16, 17, 18, 19, 20, 0x88, 0xac])
+}
+
+struct SweepReq {
+    height: u32,
+    ver: i32,
+    locktime: u32,
+    seqs: Vec<u32>,
+    input: usize,
+    wpath: Vec<u32>,
+    outs: Vec<Desc>,
+}
+fn parse_sweep(height: &str, ver: &str, lt: &str, seqs: &str, input: &str, wpath: &str, outs: &str) -> Option<SweepReq> {
+    Some(SweepReq {
+        height: height.parse().ok()?,
+        ver: ver.parse().ok()?,
+        locktime: lt.parse().ok()?,
+        seqs: list(seqs).iter().map(|s| s.parse().ok()).collect::<Option<Vec<u32>>>()?,
+        input: input.parse().ok()?,
+        wpath: parse_path(wpath)?,
+        outs: list(outs).iter().map(|s| Desc::parse(s)).collect::<Option<Vec<Desc>>>()?,
+    })
+}
+impl SweepReq {
+    fn tx(&self, node: &Node) -> Transaction {
+        Transaction {
+            version: Version(self.ver),
+            lock_time: LockTime::from_consensus(self.locktime),
+            input: self.seqs.iter().enumerate().map(|(i, s)| TxIn {
+                previous_output: OutPoint { txid: txid_of(i as u32), vout: i as u32 },
+                script_sig: ScriptBuf::new(),
+                sequence: Sequence(*s),
+                witness: Witness::default(),
+            }).collect(),
+            output: self.outs.iter().enumerate().map(|(i, d)| TxOut { value: Amount::from_sat(10_000 + i as u64), script_pubkey: desc_script(node, d) }).collect(),
+        }
+    }
+    fn model_front(&self, cfg: &Cfg) -> String {
+        let outs: Vec<String> = self.outs.iter().map(|d| { let (a, b) = dest_truth(cfg, d, &self.wpath); format!("{}{}", a, b) }).collect();
+        format!("{} {} {} {} {} {} {}",
+            if cfg.is_err(T_DEST) { 1 } else { 0 }, self.ver as u32, self.locktime, self.seqs.len(),
+            self.seqs.first().copied().unwrap_or(0), if outs.is_empty() { "-".to_string() } else { outs.join(",") }, self.input)
+    }
+}
+
+/// property-level checks common to the three sweeps, on an ACCEPTED request
+fn sweep_monitor(kind: &str, env: &Env, r: &SweepReq, locktime_bound: Option<u32>, seq_ok: bool, at: usize, co: &mut CaseOut) {
+    if env.cfg.is_err(T_DEST) {
+        for (i, d) in r.outs.iter().enumerate() {
+            if !dest_ok(dest_truth(&env.cfg, d, &r.wpath)) {
+                co.violations.push(Violation { kind: "sweep-to-unknown-destination".into(), desc: format!("{}: signed although output {} ({}) is neither wallet-derivable at path {} nor allowlisted", kind, i, d.to_string(), path_str(&r.wpath)), at });
+            }
+        }
+    }
+    if r.ver != 2 {
+        co.violations.push(Violation { kind: "sweep-version".into(), desc: format!("{}: signed version {}", kind, r.ver), at });
+    }
+    // height-domain locktimes must not exceed the bound; a time-domain locktime is only acceptable if it is
+    // already in the past for every block (500_000_000 = 1985)
+    let lock_ok = match locktime_bound {
+        Some(b) => if r.locktime < 500_000_000 { r.locktime <= b } else { r.locktime == 500_000_000 },
+        None => true,
+    };
+    if !lock_ok {
+        co.violations.push(Violation { kind: "sweep-locktime-out-of-bounds".into(), desc: format!("{}: signed locktime {} with bound {:?} (height {})", kind, r.locktime, locktime_bound, r.height), at });
+    }
+    if !seq_ok {
+        co.violations.push(Violation { kind: "sweep-sequence-out-of-bounds".into(), desc: format!("{}: signed sequences {:?}", kind, r.seqs), at });
+    }
+}
+
+pub struct C09Sweep;
+
+impl C09Sweep {
+    fn set_height(env: &Env, height: u32, nhc: Option<u64>) {
+        env.node_ctx.node.with_channel(&env.chan_ctx.channel_id, |chan| {
+            chan.monitor = ChainMonitorBase::new(chan.setup.funding_outpoint, height, &chan.id0);
+            if let Some(n) = nhc {
+                chan.enforcement_state.set_next_holder_commit_num_for_testing(n);
+            }
+            Ok(())
+        }).unwrap();
+    }
+
+    fn exec_op(&self, env: &Env, t: &[&str], at: usize, co: &mut CaseOut) -> String {
+        let node = env.node_ctx.node.clone();
+        let cid = env.chan_ctx.channel_id.clone();
+        let secp = Secp256k1::new();
+        let guard = |f: &mut dyn FnMut() -> Result<(), Status>| -> String {
+            match std::panic::catch_unwind(std::panic::AssertUnwindSafe(|| f())) {
+                Err(_) => "panic".into(),
+                Ok(Ok(())) => "ok".into(),
+                Ok(Err(st)) => status_class(&st),
+            }
+        };
+        match t {
+            ["delayed", _, _, height, ver, lt, seqs, input, cnum, nhc, wpath, outs] => {
+                let r = match parse_sweep(height, ver, lt, seqs, input, wpath, outs) { Some(r) => r, None => return "bad-op".into() };
+                let (cnum, nhc): (u64, u64) = (cnum.parse().unwrap_or(0), nhc.parse().unwrap_or(0));
+                Self::set_height(env, r.height, Some(nhc));
+                let tx = r.tx(&node);
+                let redeem = garbage_script();
+                let wp = to_dp(&r.wpath);
+                let res = guard(&mut || node.with_channel(&cid, |chan| chan.sign_delayed_sweep(&tx, r.input, cnum, &redeem, 20_000, &wp).map(|_| ())));
+                if res == "ok" {
+                    let seq_ok = r.seqs.first() == Some(&(CP_DELAY as u32));
+                    sweep_monitor("delayed", env, &r, Some(r.height.saturating_add(2)), seq_ok, at, co);
+                }
+                res
+            }
+            ["cphtlc", _, _, height, ver, lt, seqs, input, script, form, wpath, outs] => {
+                let r = match parse_sweep(height, ver, lt, seqs, input, wpath, outs) { Some(r) => r, None => return "bad-op".into() };
+                Self::set_height(env, r.height, None);
+                let tx = r.tx(&node);
+                let form_anchors = *form == "1";
+                let point = foreign_key(500);
+                let keys = node.with_channel(&cid, |chan| Ok(chan.make_counterparty_tx_keys(&point))).unwrap();
+                let (redeem, cltv): (ScriptBuf, Option<u32>) = if *script == "x" {
+                    (garbage_script(), None)
+                } else {
+                    // counterparty perspective: "received" by the counterparty = offered == false in its commitment
+                    let offered = *script == "o";
+                    let cltv: u32 = if offered { 0 } else { script[1..].parse().unwrap_or(0) };
+                    let htlc = HTLCOutputInCommitment { offered, amount_msat: 20_000_000, cltv_expiry: cltv, payment_hash: PaymentHash([3; 32]), transaction_output_index: Some(0) };
+                    (get_htlc_redeemscript(&htlc, &features(form_anchors), &keys), if offered { None } else { Some(cltv) })
+                };
+                let wp = to_dp(&r.wpath);
+                let res = guard(&mut || node.with_channel(&cid, |chan| chan.sign_counterparty_htlc_sweep(&tx, r.input, &point, &redeem, 20_000, &wp).map(|_| ())));
+                if res == "ok" {
+                    let valid: &[u32] = if ct_anchors(&env.ct) { &[1] } else { &[0, 0xffff_fffd, 0xffff_ffff] };
+                    let seq_ok = r.seqs.first().map(|s| valid.contains(s)).unwrap_or(false);
+                    if *script == "x" || form_anchors != ct_anchors(&env.ct) {
+                        co.violations.push(Violation { kind: "sweep-bad-redeemscript-signed".into(), desc: "counterparty HTLC sweep signed for a redeemscript that is not an HTLC script of this channel type".into(), at });
+                    }
+                    match cltv {
+                        Some(c) => {
+                            sweep_monitor("cphtlc-received", env, &r, None, seq_ok, at, co);
+                            if r.locktime > c {
+                                co.violations.push(Violation { kind: "sweep-locktime-out-of-bounds".into(), desc: format!("cphtlc-received: locktime {} > cltv_expiry {}", r.locktime, c), at });
+                            }
+                        }
+                        None => sweep_monitor("cphtlc-offered", env, &r, Some(r.height.saturating_add(2)), seq_ok, at, co),
+                    }
+                }
+                res
+            }
+            ["justice", _, _, height, ver, lt, seqs, input, wpath, outs] => {
+                let r = match parse_sweep(height, ver, lt, seqs, input, wpath, outs) { Some(r) => r, None => return "bad-op".into() };
+                Self::set_height(env, r.height, None);
+                let tx = r.tx(&node);
+                let redeem = garbage_script();
+                let secret = SecretKey::from_slice(&[9u8; 32]).unwrap();
+                let wp = to_dp(&r.wpath);
+                let res = guard(&mut || node.with_channel(&cid, |chan| chan.sign_justice_sweep(&tx, r.input, &secret, &redeem, 20_000, &wp).map(|_| ())));
+                if res == "ok" {
+                    let seq_ok = r.seqs.first().map(|s| [0u32, 0xffff_fffd, 0xffff_ffff].contains(s)).unwrap_or(false);
+                    sweep_monitor("justice", env, &r, Some(r.height.saturating_add(2)), seq_ok, at, co);
+                }
+                res
+            }
+            ["htlc", _, _, who, ver, lt, ins, outs, redeem, form, amount] => {
+                let is_cp = *who == "c";
+                let (ver, lt, amount): (i32, u32, u64) = match (ver.parse(), lt.parse(), amount.parse()) { (Ok(a), Ok(b), Ok(c)) => (a, b, c), _ => return "bad-op".into() };
+                let form_anchors = *form == "1";
+                // keys
+                let (point, txkeys): (PublicKey, TxCreationKeys) = node.with_channel(&cid, |chan| {
+                    if is_cp {
+                        let p = foreign_key(600);
+                        Ok((p, chan.make_counterparty_tx_keys(&p)))
+                    } else {
+                        chan.enforcement_state.set_next_holder_commit_num_for_testing(1);
+                        let p = chan.get_per_commitment_point(1)?;
+                        let h = chan.keys.pubkeys().clone();
+                        let c = chan.counterparty_pubkeys().clone();
+                        Ok((p, TxCreationKeys::derive_new(&secp, &p, &h.delayed_payment_basepoint, &h.htlc_basepoint, &c.revocation_basepoint, &c.htlc_basepoint)))
+                    }
+                }).unwrap();
+                let rev = |id: u32| if id == 0 { txkeys.revocation_key.clone() } else { RevocationKey(foreign_key(700 + id)) };
+                let dk = |id: u32| if id == 0 { txkeys.broadcaster_delayed_payment_key.clone() } else { DelayedPaymentKey(foreign_key(800 + id)) };
+                let mk_script = |s: &str| -> Option<ScriptBuf> {
+                    if let Some(r) = s.strip_prefix('r') {
+                        let p: Vec<&str> = r.split('/').collect();
+                        if p.len() != 3 { return None; }
+                        let d: u32 = p[1].parse().ok()?;
+                        if d > u16::MAX as u32 { return None; }
+                        Some(get_revokeable_redeemscript(&rev(p[0].parse().ok()?), d as u16, &dk(p[2].parse().ok()?)).to_p2wsh())
+                    } else if let Some(o) = s.strip_prefix('o') {
+                        Some(key_script(&foreign_key(900 + o.parse::<u32>().ok()?), 'w'))
+                    } else { None }
+                };
+                let mut inputs = vec![];
+                for s in list(ins) {
+                    let p: Vec<&str> = s.split(':').collect();
+                    if p.len() != 3 { return "bad-op".into(); }
+                    inputs.push(TxIn { previous_output: OutPoint { txid: txid_of(p[0].parse().unwrap_or(0)), vout: p[1].parse().unwrap_or(0) }, script_sig: ScriptBuf::new(), sequence: Sequence(p[2].parse().unwrap_or(0)), witness: Witness::default() });
+                }
+                let mut outputs = vec![];
+                for s in list(outs) {
+                    let (v, sc) = match s.split_once(':') { Some(x) => x, None => return "bad-op".into() };
+                    let sc = match mk_script(sc) { Some(x) => x, None => return "bad-op".into() };
+                    outputs.push(TxOut { value: Amount::from_sat(v.parse().unwrap_or(0)), script_pubkey: sc });
+                }
+                let tx = Transaction { version: Version(ver), lock_time: LockTime::from_consensus(lt), input: inputs, output: outputs };
+                let offered = *redeem == "o";
+                let redeemscript = if *redeem == "x" { garbage_script() } else {
+                    let htlc = HTLCOutputInCommitment { offered, amount_msat: amount.saturating_mul(1000), cltv_expiry: if offered { lt } else { 77 }, payment_hash: PaymentHash([5; 32]), transaction_output_index: Some(0) };
+                    get_htlc_redeemscript(&htlc, &features(form_anchors), &txkeys)
+                };
+                let to_self_delay = if is_cp { HOLDER_DELAY } else { CP_DELAY };
+                let witscript = get_revokeable_redeemscript(&txkeys.revocation_key, to_self_delay, &txkeys.broadcaster_delayed_payment_key);
+                let mut sig_out = None;
+                let res = guard(&mut || node.with_channel(&cid, |chan| {
+                    let s = if is_cp { chan.sign_counterparty_htlc_tx(&tx, &point, &redeemscript, amount, &witscript)? } else { chan.sign_holder_htlc_tx(&tx, 1, None, &redeemscript, amount, &witscript)? };
+                    sig_out = Some(s);
+                    Ok(())
+                }));
+                if res == "ok" {
+                    // ---- monitor: the signed transaction must be the BOLT-3 HTLC transaction
+                    let anchors = ct_anchors(&env.ct);
+                    let zero_fee = env.ct == "z";
+                    let mut bad: Vec<String> = vec![];
+                    if *redeem == "x" || form_anchors != anchors { bad.push("redeemscript is not an HTLC script of this channel type".into()); }
+                    if tx.version != Version::TWO { bad.push(format!("version {}", ver)); }
+                    if offered && lt == 0 && env.cfg.is_err(T_LOCK) { bad.push("offered HTLC with locktime 0".into()); }
+                    if !offered && lt != 0 { bad.push(format!("HTLC-success with locktime {}", lt)); }
+                    if !anchors && (tx.input.len() != 1 || tx.output.len() != 1) { bad.push(format!("{} inputs / {} outputs under SIGHASH_ALL", tx.input.len(), tx.output.len())); }
+                    match (tx.input.first(), tx.output.first()) {
+                        (Some(i0), Some(o0)) => {
+                            if i0.sequence.0 != if zero_fee { 1 } else { 0 } { bad.push(format!("input sequence {}", i0.sequence.0)); }
+                            let want = get_revokeable_redeemscript(&txkeys.revocation_key, to_self_delay, &txkeys.broadcaster_delayed_payment_key).to_p2wsh();
+                            if o0.script_pubkey != want { bad.push("output script is not the revokeable script for the negotiated delay / revocation / delayed keys".into()); }
+                            let v = o0.value.to_sat();
+                            if v > amount { bad.push("output exceeds the HTLC amount".into()); }
+                            else if zero_fee { if v != amount { bad.push(format!("zero-fee HTLC tx pays a fee of {}", amount - v)); } }
+                            else {
+                                let fee = (amount - v) as u128;
+                                let w: u128 = if offered { 663 } else { 703 };
+                                // feerates f with f*w/1000 == fee:  ceil(fee*1000/w) ..= (fee*1000+999)/w
+                                let lo = (fee * 1000 + w - 1) / w;
+                                let hi = (fee * 1000 + 999) / w;
+                                if lo > hi { bad.push(format!("fee {} is not feerate*weight/1000 for any feerate", fee)); }
+                                else if env.cfg.is_err(T_FEE) && (hi < env.cfg.minf as u128 || lo > env.cfg.maxf as u128) {
+                                    co.violations.push(Violation { kind: "htlc-feerate-out-of-range".into(), desc: format!("signed HTLC tx with fee {} (feerate {}..{}) outside [{}, {}]", fee, lo, hi, env.cfg.minf, env.cfg.maxf), at });
+                                }
+                            }
+                            // the signature must verify for the HTLC key on the sighash of the submitted tx
+                            if let Some(ts) = &sig_out {
+                                let ty = if anchors { EcdsaSighashType::SinglePlusAnyoneCanPay } else { EcdsaSighashType::All };
+                                if ts.typ != ty { bad.push(format!("sighash type {:?}", ts.typ)); }
+                                if let Ok(h) = SighashCache::new(&tx).p2wsh_signature_hash(0, &redeemscript, Amount::from_sat(amount), ts.typ) {
+                                    let htlc_pk = if is_cp { txkeys.countersignatory_htlc_key.to_public_key() } else { txkeys.broadcaster_htlc_key.to_public_key() };
+                                    if secp.verify_ecdsa(&Message::from_digest(h.to_byte_array()), &ts.sig, &htlc_pk).is_err() {
+                                        bad.push("signature does not verify on the submitted transaction".into());
+                                    }
+                                }
+                            }
+                        }
+                        _ => bad.push("no input or no output".into()),
+                    }
+                    if !bad.is_empty() {
+                        co.violations.push(Violation { kind: "htlc-tx-not-canonical".into(), desc: format!("signed second-level HTLC tx deviates from BOLT-3: {}", bad.join("; ")), at });
+                    }
+                }
+                res
+            }
+            _ => "bad-op".into(),
+        }
+    }
+}
+
+fn gen_cfg(rng: &mut Rng) -> Cfg {
+    let (minf, maxf) = match rng.below(8) { 0 => (0, 333_333), 1 => (253, 25_000), 2 => (1000, 1000), 3 => (253, u32::MAX), _ => (253, 333_333) };
+    let filter = match rng.below(16) { 0 => "p", 1 => "wd", 2 => "wl", 3 => "wf", _ => "d" }.to_string();
+    let style = if rng.chance(1, 4) { 'l' } else { 'n' };
+    let mut allow = vec![];
+    for _ in 0..rng.below(4) {
+        allow.push(match rng.below(5) {
+            0 => Desc::W(vec![rng.below(4) as u32], *rng.pick(&['w', 's', 't'])),
+            _ => Desc::F(rng.below(4) as u32, *rng.pick(&['w', 's', 't', 'k', 'h'])),
+        }.to_string());
+    }
+    allow.sort();
+    allow.dedup();
+    let mut xpubs = vec![];
+    for _ in 0..(if rng.chance(1, 2) { rng.below(3) } else { 0 }) { xpubs.push(rng.below(3) as u32); }
+    xpubs.sort();
+    xpubs.dedup();
+    Cfg { minf, maxf, filter, style, allow, xpubs }
+}
+
+fn gen_dests(rng: &mut Rng, cfg: &Cfg) -> (Vec<u32>, Vec<Desc>) {
+    let p: Vec<u32> = if cfg.style == 'l' && rng.chance(1, 3) { vec![rng.below(3) as u32, rng.below(3) as u32] } else { vec![rng.below(5) as u32] };
+    let wpath = match rng.below(14) { 0 => vec![], 1 => vec![p[0] | HARD], 2 => { let mut q = p.clone(); q.push(1); q } _ => p.clone() };
+    let n = match rng.below(10) { 0 => 0, 1..=5 => 1, 6 | 7 => 2, 8 => 3, _ => 4 };
+    let mut outs = vec![];
+    for i in 0..n {
+        // mostly good destinations; the bad one (if any) is more often NOT the first output
+        let bad = rng.chance(1, if i == 0 { 12 } else { 5 });
+        let d = if bad {
+            match rng.below(4) {
+                0 => Desc::W(vec![(p[0] + 1) & !HARD], 'w'),
+                1 => Desc::W(p.clone(), 'k'),
+                2 => Desc::X(3, p.clone(), 'w'),
+                _ => Desc::F(rng.below(5) as u32 + 10, *rng.pick(&['w', 's', 't'])),
+            }
+        } else {
+            match rng.below(6) {
+                0 | 1 | 2 => Desc::W(p.clone(), *rng.pick(&['w', 's', 't'])),
+                3 if !cfg.allow.is_empty() => Desc::parse(rng.pick(&cfg.allow[..]).as_str()).unwrap(),
+                4 if !cfg.xpubs.is_empty() => Desc::X(*rng.pick(&cfg.xpubs[..]), p.clone(), *rng.pick(&['w', 'k', 't', 's'])),
+                _ => Desc::W(p.clone(), 'w'),
+            }
+        };
+        outs.push(d);
+    }
+    (wpath, outs)
+}
+
+fn gen_height(rng: &mut Rng) -> u32 {
+    match rng.below(10) { 0 => 0, 1 => 499_999_997, 2 => 499_999_998, 3 => 499_999_996, 4 => u32::MAX - 1, 5 => u32::MAX - 2, _ => rng.range(1, 900_000) as u32 }
+}
+fn gen_locktime(rng: &mut Rng, height: u32) -> u32 {
+    let h = height as u64;
+    (match rng.below(12) {
+        0 => 0,
+        1 => h + 2,
+        2 => h + 3,
+        3 => h + 1,
+        4 => 500_000_000,
+        5 => 500_000_001,
+        6 => 499_999_999,
+        7 => 1_700_000_000,
+        8 => u32::MAX as u64,
+        _ => rng.below(h + 3),
+    }).min(u32::MAX as u64) as u32
+}
+fn join<T: ToString>(v: &[T]) -> String {
+    if v.is_empty() { "-".into() } else { v.iter().map(|x| x.to_string()).collect::<Vec<_>>().join(",") }
+}
+
+impl Group for C09Sweep {
+    fn property(&self) -> &'static str { "C09" }
+    fn model(&self) -> Option<&'static str> { Some("sweep") }
+    fn rule(&self) -> &'static str {
+        "real Node + Ready Channel (StaticRemoteKey / AnchorsZeroFeeHtlc / Anchors-under-permissive-filter; Native/Ldk derivation; \
+         allowlisted scripts and xpubs; default / single-tag-warn / permissive filter; feerate ranges): delayed, counterparty-HTLC and \
+         justice sweeps with 0-4 outputs (the bad destination mostly not first), 0-3 inputs, signed input index in and out of range, \
+         heights 0..u32::MAX incl. the 500_000_000 boundary, locktimes at height+MAX_CHAIN_LAG±1 and in the time domain, sequences in and \
+         next to the permitted sets, commitment numbers around next_holder_commit_num+1; second-level HTLC txs (holder and counterparty, \
+         offered/received, both script forms) with mutated version/locktime/sequence/delay/revocation key/delayed key/value/extra inputs \
+         and outputs and fees at the min/max feerate edges; non-trivial = at least one signature and one refusal"
+    }
+    fn budget(&self, tier: Tier) -> usize { if tier == Tier::Quick { 2500 } else { 40000 } }
+    fn corpus(&self) -> Vec<Vec<String>> {
+        let c = |s: &str| s.split('|').map(|x| x.to_string()).collect::<Vec<String>>();
+        vec![
+            // the repository's scenarios: wallet destination, bad locktime (height 3: 1000000 > 5), bad sequence
+            c("env 253;333333;d;n;-;- s|delayed 253;333333;d;n;-;- s 3 2 0 7 0 0 1 19 W/19/w|delayed 253;333333;d;n;-;- s 3 2 1000000 7 0 0 1 19 W/19/w|delayed 253;333333;d;n;-;- s 3 2 0 42 0 0 1 19 W/19/w"),
+            // second output to a foreign script; time-domain locktime 500000000; locktime = height + 2 / + 3
+            c("env 253;333333;d;n;-;- s|delayed 253;333333;d;n;-;- s 100 2 0 7 0 0 1 1 W/1/w,F/3/w|justice 253;333333;d;n;-;- s 100 2 500000000 0 0 1 W/1/w|justice 253;333333;d;n;-;- s 100 2 102 0 0 1 W/1/w|justice 253;333333;d;n;-;- s 100 2 103 0 0 1 W/1/w"),
+            // canonical HTLC-timeout (non-anchors, feerate 1000 → fee 663) and a wrong delay
+            c("env 253;333333;d;n;-;- s|htlc 253;333333;d;n;-;- s h 2 131072 5:0:0 9337:r0/7/0 o 0 10000|htlc 253;333333;d;n;-;- s h 2 131072 5:0:0 9337:r0/6/0 o 0 10000"),
+        ]
+    }
+    fn model_line(&self, op: &str) -> Option<String> {
+        let t: Vec<&str> = op.split_whitespace().collect();
+        let cfg = t.get(1).and_then(|c| Cfg::parse(c));
+        match (t.as_slice(), cfg) {
+            (["env", ..], _) => None,
+            (["delayed", _, _ct, height, ver, lt, seqs, input, cnum, nhc, wpath, outs], Some(cfg)) => {
+                let r = parse_sweep(height, ver, lt, seqs, input, wpath, outs)?;
+                let (cnum, nhc): (u64, u64) = (cnum.parse().ok()?, nhc.parse().ok()?);
+                Some(format!("delayed {} {} {} {}", r.model_front(&cfg), if cnum <= nhc.saturating_add(1) { 1 } else { 0 }, r.height, CP_DELAY))
+            }
+            (["cphtlc", _, ct, height, ver, lt, seqs, input, script, form, wpath, outs], Some(cfg)) => {
+                let r = parse_sweep(height, ver, lt, seqs, input, wpath, outs)?;
+                // read_scriptint accepts at most 4 bytes: a cltv_expiry ≥ 2^31 does not parse as an HTLC script
+                let cltv_fits = script.strip_prefix('r').map(|c| c.parse::<u64>().map(|c| c <= 0x7fff_ffff).unwrap_or(false)).unwrap_or(true);
+                let parses = (*form == "1") == ct_anchors(ct) && *script != "x" && cltv_fits;
+                Some(format!("cphtlc {} {} {} {}", r.model_front(&cfg), if parses { script.to_string() } else { "x".to_string() }, if ct_anchors(ct) { 1 } else { 0 }, r.height))
+            }
+            (["justice", _, _ct, height, ver, lt, seqs, input, wpath, outs], Some(cfg)) => {
+                let r = parse_sweep(height, ver, lt, seqs, input, wpath, outs)?;
+                Some(format!("justice {} {}", r.model_front(&cfg), r.height))
+            }
+            (["htlc", _, ct, who, ver, lt, ins, outs, redeem, form, amount], Some(cfg)) => {
+                let parses = (*form == "1") == ct_anchors(ct) && *redeem != "x";
+                let ver: i32 = ver.parse().ok()?;
+                Some(format!("htlc {} {} {} {} {} {} {} {} {} {} {} {}", cfg.minf, cfg.maxf,
+                    if cfg.is_err(T_LOCK) { 1 } else { 0 }, if cfg.is_err(T_FEE) { 1 } else { 0 }, ct,
+                    if *who == "c" { HOLDER_DELAY } else { CP_DELAY }, ver as u32, lt, ins, outs,
+                    if parses { redeem.to_string() } else { "x".to_string() }, amount))
+            }
+            _ => Some("bad-op".into()),
+        }
+    }
+    fn gen_case(&self, rng: &mut Rng, tier: Tier) -> Vec<String> {
+        let cfg = gen_cfg(rng);
+        let ct = if cfg.filter == "p" && rng.chance(1, 2) { "a" } else if rng.chance(1, 2) { "z" } else { "s" };
+        let cs = cfg.to_string();
+        let mut ops = vec![format!("env {} {}", cs, ct)];
+        let n = rng.range(2, if tier == Tier::Quick { 6 } else { 12 });
+        for _ in 0..n {
+            let kind = rng.below(10);
+            if kind < 6 {
+                let height = gen_height(rng);
+                let lt = gen_locktime(rng, height);
+                let (wpath, outs) = gen_dests(rng, &cfg);
+                let n_in = match rng.below(10) { 0 => 0, 1 | 2 => 2, 3 => 3, _ => 1 };
+                let input = if rng.chance(1, 12) { n_in } else if n_in > 0 { rng.below(n_in as u64) as usize } else { 0 };
+                let ver = match rng.below(12) { 0 => 1, 1 => 3, _ => 2 };
+                let outs_s = join(&outs.iter().map(|d| d.to_string()).collect::<Vec<_>>());
+                match kind {
+                    0 | 1 => {
+                        let seqs: Vec<u32> = (0..n_in).map(|_| match rng.below(8) { 0 => 6, 1 => 8, 2 => 0, _ => CP_DELAY as u32 }).collect();
+                        let nhc = rng.below(4);
+                        let cnum = match rng.below(8) { 0 => nhc + 2, 1 => nhc + 1, 2 => nhc + 3, _ => rng.below(nhc + 1) };
+                        ops.push(format!("delayed {} {} {} {} {} {} {} {} {} {} {}", cs, ct, height, ver, lt, join(&seqs), input, cnum, nhc, path_str(&wpath), outs_s));
+                    }
+                    2 | 3 => {
+                        let good: &[u32] = if ct_anchors(ct) { &[1] } else { &[0, 0xffff_fffd, 0xffff_ffff] };
+                        let seqs: Vec<u32> = (0..n_in).map(|_| match rng.below(8) { 0 => 2, 1 => 0xffff_fffe, 2 => if ct_anchors(ct) { 0 } else { 1 }, _ => *rng.pick(good) }).collect();
+                        let (script, lt) = match rng.below(10) {
+                            0 => ("x".to_string(), lt),
+                            1..=4 => ("o".to_string(), lt),
+                            _ => {
+                                let cltv = match rng.below(5) { 0 => 0, 1 => u32::MAX, 2 => 499_999_999, _ => rng.range(1, 800_000) as u32 };
+                                let l = match rng.below(6) { 0 => cltv.saturating_add(1), 1 => cltv, 2 => cltv.saturating_sub(1), 3 => 0, 4 => lt, _ => rng.below(cltv as u64 + 1) as u32 };
+                                (format!("r{}", cltv), l)
+                            }
+                        };
+                        let form = if rng.chance(1, 10) { !ct_anchors(ct) } else { ct_anchors(ct) };
+                        ops.push(format!("cphtlc {} {} {} {} {} {} {} {} {} {} {}", cs, ct, height, ver, lt, join(&seqs), input, script, if form { 1 } else { 0 }, path_str(&wpath), outs_s));
+                    }
+                    _ => {
+                        let seqs: Vec<u32> = (0..n_in).map(|_| match rng.below(8) { 0 => 1, 1 => 0xffff_fffe, 2 => 7, _ => *rng.pick(&[0u32, 0xffff_fffd, 0xffff_ffff]) }).collect();
+                        ops.push(format!("justice {} {} {} {} {} {} {} {} {}", cs, ct, height, ver, lt, join(&seqs), input, path_str(&wpath), outs_s));
+                    }
+                }
+            } else {
+                // second-level HTLC tx: start from the canonical one, then mutate
+                let is_cp = rng.chance(1, 2);
+                let offered = rng.chance(1, 2);
+                let zero_fee = ct == "z";
+                let delay = if is_cp { HOLDER_DELAY } else { CP_DELAY } as u32;
+                let amount: u64 = match rng.below(10) { 0 => 0, 1 => 546, 2 => u64::MAX / 1000, 3 => u64::MAX / 1000 + 1, 4 => 21_000_000 * 100_000_000, _ => rng.range(1_000, 20_000_000) };
+                let w: u64 = if offered { if zero_fee { 666 } else { 663 } } else if zero_fee { 706 } else { 703 };
+                let fr: u64 = match rng.below(10) { 0 => cfg.minf as u64, 1 => (cfg.minf as u64).saturating_sub(1), 2 => cfg.maxf as u64, 3 => cfg.maxf as u64 + 1, 4 => 0, 5 => 4_294_967_296 + rng.below(1000), _ => rng.range(cfg.minf as u64, (cfg.maxf as u64).min(50_000).max(cfg.minf as u64)) };
+                let fee = if zero_fee { 0 } else { ((fr as u128 * w as u128) / 1000).min(u64::MAX as u128) as u64 };
+                let mut value = amount.saturating_sub(fee);
+                let mut ver = 2;
+                let mut lt: u32 = if offered { match rng.below(8) { 0 => 0, 1 => 500_000_001, _ => rng.range(1, 800_000) as u32 } } else { 0 };
+                let mut ins = vec![format!("{}:{}:{}", rng.below(3), rng.below(4), if zero_fee { 1 } else { 0 })];
+                let (mut r, mut d, mut k) = (0u32, delay, 0u32);
+                let mut other = false;
+                let mut outs_extra: Vec<String> = vec![];
+                let mut redeem = if offered { "o" } else { "r" }.to_string();
+                let mut form = ct_anchors(ct);
+                if rng.chance(1, 2) {
+                    match rng.below(16) {
+                        0 => ver = *rng.pick(&[1, 3]),
+                        1 => lt = if offered { 0 } else { rng.range(1, 1000) as u32 },
+                        2 => ins[0] = format!("0:0:{}", if zero_fee { 0 } else { 1 }),
+                        3 => d = delay + 1,
+                        4 => d = if is_cp { CP_DELAY } else { HOLDER_DELAY } as u32,
+                        5 => r = 1,
+                        6 => k = 1,
+                        7 => other = true,
+                        8 => value = value.saturating_add(1),
+                        9 => value = value.saturating_sub(1),
+                        10 => ins.push("9:0:0".to_string()),
+                        11 => outs_extra.push(format!("{}:o4", rng.below(100_000))),
+                        12 => redeem = "x".into(),
+                        13 => form = !form,
+                        14 => { ins.clear(); }
+                        _ => value = amount.saturating_add(rng.below(3)),
+                    }
+                }
+                let mut outs = vec![format!("{}:{}", value, if other { "o1".to_string() } else { format!("r{}/{}/{}", r, d, k) })];
+                outs.extend(outs_extra);
+                if rng.chance(1, 40) { outs.clear(); }
+                ops.push(format!("htlc {} {} {} {} {} {} {} {} {} {}", cs, ct, if is_cp { "c" } else { "h" }, ver, lt, join(&ins), join(&outs), redeem, if form { 1 } else { 0 }, amount));
+            }
+        }
+        ops
+    }
+    fn exec_case(&self, ops: &[String]) -> CaseOut {
+        let mut co = CaseOut::default();
+        let mut env: Option<Env> = None;
+        let (mut acc, mut rej) = (false, false);
+        for (i, op) in ops.iter().enumerate() {
+            let t: Vec<&str> = op.split_whitespace().collect();
+            let line = match t.as_slice() {
+                ["env", cfg, ct] => match Cfg::parse(cfg).map(|c| make_env(&c, ct)) {
+                    Some(Ok(e)) => { env = Some(e); "ok".to_string() }
+                    Some(Err(m)) => format!("harness-setup-failed {}", m),
+                    None => "bad-op".into(),
+                },
+                [kind, cfg, ct, ..] => match env.as_ref() {
+                    None => panic!("request before env (malformed shrunk case)"),
+                    Some(e) if e.cfg.to_string() == *cfg && e.ct == *ct => {
+                        let l = self.exec_op(e, &t, i, &mut co);
+                        co.tags.insert(format!("{}:{}", kind, l.split(' ').next().unwrap_or("")));
+                        if l == "ok" { acc = true } else { rej = true }
+                        if l == "panic" {
+                            // a panic inside with_channel poisons the slot mutex: rebuild the environment
+                            env = make_env(&e.cfg.clone(), &e.ct.clone()).ok();
+                        }
+                        l
+                    }
+                    _ => "bad-op".into(),
+                },
+                _ => "bad-op".into(),
+            };
+            co.out.push(line);
+        }
+        co.nontrivial = acc && rej;
+        co
+    }
+}
 
 pub fn groups() -> Vec<Box<dyn Group>> {
-    vec![]
+    vec![Box::new(C09Sweep)]
 }
